@@ -1,5 +1,5 @@
 (* C04 — Combinational settling is complete and independent of construction order.
-   Statements only; proofs in Proofs/C04/{SortLemmas,Settle,Refute,Chain,Main}.v.
+   Statements only; proofs in Proofs/C04/{SortLemmas,Acyclic,Settle,Refute,Chain,Main}.v.
    Sorter model: Model/Sort.v (step-for-step Simulator.topologicalSort / findFirstDependentPosition; tied to the
    real Simulator.propagatables element for element on every run).  Evaluation: Model/SimKernel.v propagateAll. *)
 From V Require Import Base.PyInt Gen.WireOps Model.SimKernel Model.Sort Spec.C04.
@@ -23,6 +23,18 @@ Theorem C04_sort_terminates : forall succ d l,
   closed succ l -> ranking succ l d ->
   exists K0, forall l0, Permutation l l0 -> forall K, K0 <= K -> exists l', sort_fuel succ K l0 = Some l'.
 Proof. exact sort_terminates_thm. Qed.
+
+(* "a ranking exists" is exactly "no leaf reaches itself" on a finite closed leaf set ... *)
+Theorem C04_acyclic_iff_ranking : forall succ l, closed succ l ->
+  ((forall v, In v l -> ~ path succ v v) <-> exists d, ranking succ l d).
+Proof. exact acyclic_iff_ranking_thm. Qed.
+
+(* ... so the sorter terminates on EVERY netlist without a combinational cycle (self-loops are cycles here), for every
+   instantiation order, given enough passes *)
+Theorem C04_sort_terminates_acyclic : forall succ l,
+  closed succ l -> (forall v, In v l -> ~ path succ v v) ->
+  exists K0, forall l0, Permutation l l0 -> forall K, K0 <= K -> exists l', sort_fuel succ K l0 = Some l'.
+Proof. exact sort_terminates_acyclic_thm. Qed.
 
 (* each swap the code performs strictly increases  sum_i i * d(l[i])  (the termination measure) *)
 Theorem C04_swap_increases_measure : forall succ d l i p,
@@ -144,6 +156,8 @@ Proof. exact two_bad_represents. Qed.
 
 Print Assumptions C04_sort_sound.
 Print Assumptions C04_sort_terminates.
+Print Assumptions C04_acyclic_iff_ranking.
+Print Assumptions C04_sort_terminates_acyclic.
 Print Assumptions C04_swap_increases_measure.
 Print Assumptions C04_cycle_rejected.
 Print Assumptions C04_settle_fixpoint.
